@@ -94,38 +94,63 @@ Qed.
 Definition link (c : @abf_cfg R) (s : @abf_state R) (p : @abf_in R * @abf_out R) : Prop :=
   s_started s = true /\
   s_fbin s = bins Rops c (i_x (fst p)) /\
-  (forall k, (k < c_nd c)%nat -> vget Rops (s_eng s) k = vget Rops (i_e (fst p)) k + vget Rops (o_f (snd p)) k) /\
+  (forall k, (k < c_nd c)%nat ->
+     vget Rops (s_eng s) k = if cvapply c k then vget Rops (i_e (fst p)) k + vget Rops (o_f (snd p)) k
+                             else vget Rops (i_e (fst p)) k) /\
   (forall k, (k < c_nd c)%nat -> vget Rops (s_fabf s) k = vget Rops (o_fabf (snd p)) k) /\
   (forall k, (k < c_nd c)%nat -> bget (c_subtract c) k = true -> vget Rops (s_fold s) k = vget Rops (o_f (snd p)) k) /\
-  (forall k, (k < c_nd c)%nat -> vget Rops (s_fj s) k = vget Rops (i_j (fst p)) k).
+  (forall k, (k < c_nd c)%nat -> vget Rops (s_fj s) k = vget Rops (i_j (fst p)) k) /\
+  (* a variable to which no bias applies a force: the ABF force is 0, and so is colvar::f unless hideJacobian *)
+  (forall k, (k < c_nd c)%nat -> cvapply c k = false ->
+     vget Rops (o_fabf (snd p)) k = 0 /\ (c_hidej c = false -> vget Rops (o_f (snd p)) k = 0)).
 
 Lemma link_step c s i : link c (fst (abf_step Rops c s i)) (i, snd (abf_step Rops c s i)).
 Proof.
   unfold abf_step, link. cbn [fst snd s_started s_fbin s_eng s_fabf s_fold s_fj o_f o_fabf].
-  split; [reflexivity|]. split; [reflexivity|]. split; [|split; [|split]].
-  - intros k Hk. unfold st_eng. rewrite vget_vbuild by exact Hk. reflexivity.
+  split; [reflexivity|]. split; [reflexivity|]. split; [|split; [|split; [|split]]].
+  - intros k Hk. unfold st_eng. rewrite vget_vbuild by exact Hk. destruct (cvapply c k); reflexivity.
   - intros k Hk. reflexivity.
   - intros k Hk Hs. unfold st_fold. rewrite vget_vbuild by exact Hk. rewrite Hs. reflexivity.
   - intros k Hk. unfold st_fj. rewrite vget_vbuild by exact Hk. reflexivity.
+  - intros k Hk Hcv. unfold cvapply in Hcv. apply orb_false_iff in Hcv. destruct Hcv as [Ha Ho].
+    assert (Hf : vget Rops (st_fabf Rops c s i) k = 0).
+    { unfold st_fabf. rewrite Ha. cbn [andb]. apply vget_vzero. }
+    split; [exact Hf|]. intros Hh. unfold st_f. rewrite vget_vbuild by exact Hk.
+    rewrite Hh, Hf. unfold oeff. rewrite Ho. cbn [nadd n0 Rops]. lra.
 Qed.
 
 (* ---------------------------------------------------------------- one step, lagged convention *)
 
+(* side condition of the partial theorem: with hideJacobian in the lagged convention every variable has a
+   bias that applies forces to it (applyBias on, or another bias), so that the compensating force -fj
+   really reaches the atoms *)
+Definition jac_ok (c : @abf_cfg R) : Prop :=
+  c_hidej c = true -> c_same_step c = false -> forall k, (k < c_nd c)%nat -> cvapply c k = true.
+
 Lemma sysf_lag c s i p k :
+  jac_ok c ->
   c_same_step c = false -> c_update c = true -> (0 <? fst (st_clk s i))%Z = true ->
   link c s p -> (k < c_nd c)%nat ->
   vget Rops (st_sysf Rops c s i) k = vget Rops (sample_force Rops c p) k.
 Proof.
-  intros Hsame Hupd Hrel (Hst & Hfb & Heng & Hfabf & Hfold & Hfj) Hk.
+  intros Hjok Hsame Hupd Hrel (Hst & Hfb & Heng & Hfabf & Hfold & Hfj & Hnoapp) Hk.
   unfold st_sysf. rewrite vget_vbuild by exact Hk.
   unfold st_ft. rewrite Hsame. rewrite vget_vbuild by exact Hk.
   unfold st_ft0. rewrite vget_vbuild by exact Hk.
   rewrite Hupd, Hsame, Hrel. cbn [orb]. rewrite (Heng k Hk), (Hfj k Hk).
   unfold sample_force. rewrite vget_vbuild by exact Hk.
   unfold measured, own, jac, addj. rewrite Hsame.
-  destruct (bget (c_subtract c) k) eqn:Hs; destruct (c_hidej c) eqn:Hh;
-    cbn [andb orb negb nsub nadd n0 Rops];
-    try rewrite (Hfold k Hk Hs); try rewrite (Hfabf k Hk); lra.
+  destruct (cvapply c k) eqn:Hcv.
+  - destruct (bget (c_subtract c) k) eqn:Hs; destruct (c_hidej c) eqn:Hh;
+      cbn [andb orb negb nsub nadd n0 Rops];
+      try rewrite (Hfold k Hk Hs); try rewrite (Hfabf k Hk); lra.
+  - destruct (c_hidej c) eqn:Hh.
+    + (* excluded by jac_ok *)
+      rewrite (Hjok Hh Hsame k Hk) in Hcv. discriminate Hcv.
+    + destruct (Hnoapp k Hk Hcv) as [Hf0 Hof]. specialize (Hof eq_refl).
+      destruct (bget (c_subtract c) k) eqn:Hs;
+        cbn [andb orb negb nsub nadd n0 Rops];
+        try rewrite (Hfold k Hk Hs); try rewrite (Hfabf k Hk); lra.
 Qed.
 
 Lemma doacc_lag c s i p :
@@ -139,14 +164,14 @@ Proof.
 Qed.
 
 Lemma step_lag c s i p b :
-  c_same_step c = false -> c_szd c = false -> link c s p ->
+  jac_ok c -> c_same_step c = false -> c_szd c = false -> link c s p ->
   let s1 := fst (abf_step Rops c s i) in
   let o := snd (abf_step Rops c s i) in
   let A := attributed_of c [(bins Rops c (i_x (fst p)), sample_force Rops c p, (o_rel o, o_cont o))] in
   s_cnt s1 b = (s_cnt s b + cnt_of b A)%Z /\
   forall k, (k < c_nd c)%nat -> vget Rops (s_sum s1 b) k = vget Rops (s_sum s b) k - fsum_of k b A.
 Proof.
-  intros Hsame Hszd Hl. cbn zeta.
+  intros Hjok Hsame Hszd Hl. cbn zeta.
   unfold abf_step. cbn [fst snd s_cnt s_sum o_rel o_cont].
   rewrite attributed_of_one. rewrite <- surjective_pairing.
   unfold st_cnt, st_sum. rewrite (doacc_lag c s i p Hsame Hszd Hl).
@@ -161,12 +186,12 @@ Proof.
         apply andb_true_iff in E. destruct E as [E1 _]. unfold eligible in E1.
         apply andb_true_iff in E1. destruct E1 as [Hupd E2]. rewrite Hszd in E2.
         rewrite orb_false_r in E2. apply andb_true_iff in E2. destruct E2 as [Hrel _].
-        rewrite (sysf_lag c s i p k Hsame Hupd Hrel Hl Hk). reflexivity.
+        rewrite (sysf_lag c s i p k Hjok Hsame Hupd Hrel Hl Hk). reflexivity.
       * lra.
   - split; [unfold cnt_of; cbn; lia | intros k Hk; unfold fsum_of; cbn; lra].
 Qed.
 
-Lemma run_lag c : c_same_step c = false -> c_szd c = false ->
+Lemma run_lag c : jac_ok c -> c_same_step c = false -> c_szd c = false ->
   forall h s p, link c s p ->
     forall b,
       let r := abf_run_from Rops c s h in
@@ -174,14 +199,14 @@ Lemma run_lag c : c_same_step c = false -> c_szd c = false ->
       s_cnt (fst r) b = (s_cnt s b + cnt_of b A)%Z /\
       forall k, (k < c_nd c)%nat -> vget Rops (s_sum (fst r) b) k = vget Rops (s_sum s b) k - fsum_of k b A.
 Proof.
-  intros Hsame Hszd h. induction h as [|i h IH]; intros s p Hl b; cbn zeta.
+  intros Hjok Hsame Hszd h. induction h as [|i h IH]; intros s p Hl b; cbn zeta.
   - cbn [abf_run_from fst snd combine deliveries_lag]. unfold attributed_of, cnt_of, fsum_of. cbn.
     split; [lia | intros k Hk; lra].
   - cbn [abf_run_from fst snd combine deliveries_lag] in *.
     pose proof (link_step c s i) as Hl1.
     specialize (IH (fst (abf_step Rops c s i)) (i, snd (abf_step Rops c s i)) Hl1 b).
     cbn zeta in IH. destruct IH as [IHc IHs].
-    pose proof (step_lag c s i p b Hsame Hszd Hl) as Hstep. cbn zeta in Hstep.
+    pose proof (step_lag c s i p b Hjok Hsame Hszd Hl) as Hstep. cbn zeta in Hstep.
     destruct Hstep as [Sc Ss].
     rewrite attributed_of_app, cnt_of_app. split.
     + rewrite IHc, Sc. lia.
@@ -247,7 +272,7 @@ Proof.
     + intros k Hk. rewrite fsum_of_app. unfold deliveries_same in IHs. rewrite (IHs k Hk), (Ss k Hk). lra.
 Qed.
 
-(* ---------------------------------------------------------------- T1 (full) *)
+(* ---------------------------------------------------------------- T1 (partial: jac_ok) *)
 
 (* stepZeroData is only available with same-step total forces (colvarbias_abf::init:
    provide(f_cvb_step_zero_data, false) otherwise; the configuration is then rejected) *)
@@ -263,12 +288,12 @@ Proof.
 Qed.
 
 Theorem abf_state_is_sample_sum (c : @abf_cfg R) (h : list (@abf_in R)) (b : idx) :
-  wf_cfg c ->
+  wf_cfg c -> jac_ok c ->
   s_cnt (fst (abf_run Rops c h)) b = cnt_of b (attributed Rops c (trace_of c h)) /\
   forall k, (k < c_nd c)%nat ->
     vget Rops (s_sum (fst (abf_run Rops c h)) b) k = - fsum_of k b (attributed Rops c (trace_of c h)).
 Proof.
-  intros Hwf. unfold attributed, deliveries, trace_of, abf_run in *.
+  intros Hwf Hjok. unfold attributed, deliveries, trace_of, abf_run in *.
   destruct (c_same_step c) eqn:Hsame.
   - pose proof (run_same c Hsame h (abf_init Rops c) b) as H. cbn zeta in H. destruct H as [Hc Hs].
     split.
@@ -282,7 +307,7 @@ Proof.
       split; [reflexivity | intros k Hk; rewrite vget_vzero; lra].
     + cbn [abf_run_from fst snd combine deliveries_lag app] in *.
       pose proof (link_step c (abf_init Rops c) i0) as Hl.
-      pose proof (run_lag c Hsame Hszd h _ _ Hl b) as H. cbn zeta in H. destruct H as [Hc Hs].
+      pose proof (run_lag c Hjok Hsame Hszd h _ _ Hl b) as H. cbn zeta in H. destruct H as [Hc Hs].
       assert (Hc0 : s_cnt (fst (abf_step Rops c (abf_init Rops c) i0)) b = 0%Z).
       { unfold abf_step. cbn [fst s_cnt]. unfold st_cnt. rewrite first_step_lag by assumption. reflexivity. }
       assert (Hs0 : forall k, vget Rops (s_sum (fst (abf_step Rops c (abf_init Rops c) i0)) b) k = 0).
@@ -320,15 +345,15 @@ Proof.
 Qed.
 
 Theorem abf_sum_vector (c : @abf_cfg R) (h : list (@abf_in R)) (b : idx) :
-  wf_cfg c ->
+  wf_cfg c -> jac_ok c ->
   s_sum (fst (abf_run Rops c h)) b
   = vbuild (c_nd c) (fun k => - fsum_of k b (attributed Rops c (ABFModel.trace_of Rops c h))).
 Proof.
-  intros Hwf. apply vec_ext with (n := c_nd c).
+  intros Hwf Hjok. apply vec_ext with (n := c_nd c).
   - unfold abf_run. apply sum_length_run. intros b'. unfold abf_init. cbn [s_sum]. apply vbuild_length.
   - apply vbuild_length.
   - intros k Hk. rewrite vget_vbuild by exact Hk.
-    destruct (abf_state_is_sample_sum c h b Hwf) as [_ Hs]. apply Hs. exact Hk.
+    destruct (abf_state_is_sample_sum c h b Hwf Hjok) as [_ Hs]. apply Hs. exact Hk.
 Qed.
 
 (* ---------------------------------------------------------------- the stored gradient is minus the mean *)
@@ -342,15 +367,15 @@ Proof. unfold cnt_of. lia. Qed.
 
 (* [grad_out] is colvar_grid_gradient::value_output, what the state file and the .grad file contain *)
 Theorem stored_gradient_is_minus_mean (c : @abf_cfg R) (h : list (@abf_in R)) (b : idx) (k : nat) :
-  wf_cfg c -> (k < c_nd c)%nat ->
+  wf_cfg c -> jac_ok c -> (k < c_nd c)%nat ->
   let s := fst (abf_run Rops c h) in
   let S := attributed Rops c (ABFModel.trace_of Rops c h) in
   s_cnt s b = cnt_of b S /\
   ((0 < cnt_of b S)%Z -> grad_out Rops (s_cnt s) (s_sum s) b k = - mean_force S b k) /\
   (cnt_of b S = 0%Z -> grad_out Rops (s_cnt s) (s_sum s) b k = 0).
 Proof.
-  intros Hwf Hk. cbn zeta.
-  destruct (abf_state_is_sample_sum c h b Hwf) as [Hc Hs].
+  intros Hwf Hjok Hk. cbn zeta.
+  destruct (abf_state_is_sample_sum c h b Hwf Hjok) as [Hc Hs].
   split; [exact Hc|]. unfold grad_out, mean_force. cbn [n0 n1 ndiv nmul nofZ Rops].
   rewrite Hc, (Hs k Hk). split.
   - intros Hpos. destruct (0 <? cnt_of b (attributed Rops c (ABFModel.trace_of Rops c h)))%Z eqn:E;
@@ -585,17 +610,17 @@ Qed.
 (* After ANY history h followed by a step i: the ABF force of that step, in terms of the attributed
    samples of the whole history h ++ [i] *)
 Theorem applied_force_is_smoothed_negative_mean c h i k :
-  wf_cfg c -> (k < c_nd c)%nat -> (0 <= c_min c < c_full c)%Z ->
+  wf_cfg c -> jac_ok c -> (k < c_nd c)%nat -> (0 <= c_min c < c_full c)%Z ->
   (c_cap c = true -> 0 <= vget Rops (c_maxf c) k) ->
   vget Rops (o_fabf (snd (abf_step Rops c (fst (abf_run Rops c h)) i))) k
   = spec_force_samples c (attributed Rops c (ABFModel.trace_of Rops c (h ++ [i]))) (bins Rops c (i_x i)) k.
 Proof.
-  intros Hwf Hk Hmf Hcap.
+  intros Hwf Hjok Hk Hmf Hcap.
   pose proof (applied_force_after_history c h i k Hk Hmf Hcap) as H. cbn zeta in H. rewrite H.
   rewrite <- run_snoc.
   apply spec_force_of_samples; [exact Hk | |].
-  - intros b'. apply (abf_state_is_sample_sum c (h ++ [i]) b' Hwf).
-  - intros b' k' Hk'. apply (abf_state_is_sample_sum c (h ++ [i]) b' Hwf). exact Hk'.
+  - intros b'. apply (abf_state_is_sample_sum c (h ++ [i]) b' Hwf Hjok).
+  - intros b' k' Hk'. apply (abf_state_is_sample_sum c (h ++ [i]) b' Hwf Hjok). exact Hk'.
 Qed.
 
 (* outside the grid, or with applyBias off, the ABF force is zero *)
@@ -696,12 +721,19 @@ Proof.
 Qed.
 
 (* ---------------------------------------------------------------- non-vacuity *)
+(* wf_cfg and jac_ok hold for a lagged configuration with hideJacobian and applyBias on *)
 Lemma example_wf_lagged :
-  let c := @mkCfg R 1 [0%R] [1%R] [2%Z] [false] 2 1 false true false [0%R] false false [false] false in
-  let h := [@mkIn R [(1/2)%R] [1%R] [0%R] [0%R] false; @mkIn R [(1/2)%R] [0%R] [0%R] [0%R] false] in
-  wf_cfg c /\ length (ABFModel.trace_of Rops c h) = 2%nat.
+  let c := @mkCfg R 1 [0%R] [1%R] [2%Z] [false] 2 1 true true false [0%R] false false [false] true [false] in
+  let h := [@mkIn R [(1/2)%R] [1%R] [0%R] [3%R] false; @mkIn R [(1/2)%R] [0%R] [0%R] [3%R] false] in
+  wf_cfg c /\ jac_ok c /\ c_hidej c = true /\ c_same_step c = false /\ length (ABFModel.trace_of Rops c h) = 2%nat.
 Proof.
-  cbn zeta. split.
+  cbn zeta. split; [|split; [|split; [|split]]]; try reflexivity.
   - unfold wf_cfg. cbn [c_szd]. intros H. discriminate H.
-  - reflexivity.
+  - unfold jac_ok, cvapply. cbn [c_apply orb]. intros _ _ k _. reflexivity.
 Qed.
+
+(* jac_ok is vacuous without hideJacobian and in the same-step convention *)
+Lemma jac_ok_nohide c : c_hidej c = false -> jac_ok c.
+Proof. intros H Hh. congruence. Qed.
+Lemma jac_ok_same c : c_same_step c = true -> jac_ok c.
+Proof. intros H _ Hs. congruence. Qed.
